@@ -21,7 +21,7 @@ def make_runs(run):
         mode = MODES[k % len(MODES)]
         pat = UNIQUE_POSE[(k // 2) % len(UNIQUE_POSE)] if k % 2 == 0 else None
         big = None
-        flavor = ["corners", "mixed", "antiparallel"][(k // 4) % 3]
+        flavor = ["corners", "mixed", "antiparallel", "stretched"][(k // 4) % 4]
         if k % 4 == 3:
             # copies (and mirror-image decoys) far from the origin, patterns whose only relabelling / look-alike is a reflection
             pat, big, flavor = ["mirrorsym5", "ch2f2", "chiral5", "weakchiral4"][(k // 4) % 4], True, "decoys"
@@ -29,7 +29,7 @@ def make_runs(run):
         k += 1
         if p is None:
             continue
-        runs.append(dict(p=p, frac=Fraction(1), replace_all=(k % 3 == 0), ignore=False, seed=run.rng.randrange(1 << 30), parts=("outcome",),
+        runs.append(dict(p=p, frac=(Fraction(1, 2) if k % 5 == 1 else Fraction(1)), replace_all=(k % 3 == 0), ignore=False, seed=run.rng.randrange(1 << 30), parts=("outcome",),
                          kind="planted", joint=(pat in UNIQUE_POSE)))
     return runs
 
